@@ -281,7 +281,7 @@ parts = [
      extra=[("R6", "ZmtpCommand::create_pong(&ctx)", "ZmtpCommand::create_pong(ctx.as_slice())", 1)],
      hints=[
        ("top", "@loop_start:0", 0, "", "broadcast use lemma_delivered_push, lemma_sends_push, lemma_n_gated_push;\nlet ghost log0 = self.framer.read_log(); let ghost base = old(self).framer.read_log(); let ghost nf0 = self.new_frames(base); let ghost acts0 = out.app_actions@; let ghost nets0 = out.net_actions@; let ghost part0 = self.partial_batch@;"),
-       ("read", "re:self\\.last_activity_time\\s*=\\s*Instant::now\\(\\);", 0, "before",
+       ("read", "re:if msg\\.is_command\\(\\) \\{", 0, "before",
         "proof { assert(self.new_frames(base) =~= nf0.push(msg)); lemma_data_frames_push(nf0, msg); lemma_pong_replies_push(nf0, msg); }\nlet ghost m0 = msg;"),
        ("end", "@loop_end:0", 0, "",
         "proof { assert(delivered_frames(out.app_actions@) + self.partial_batch@ =~= (delivered_frames(acts0) + part0).push(m0)); }"),
